@@ -125,6 +125,15 @@ IsLeaf(T) == T.k \in LeafKinds \cup {"arru8", "dstr"}
 Take(s, n) == SubSeq(s, 1, Min(n, Len(s)))
 Last(s) == s[Len(s)]
 
+\* values of the recursive declarations
+NamedVals(name) ==
+  CASE name = "RecList" -> <<<<20, <<0, 1>>, <<4>>>>,
+                             <<20, <<0, 1>>, <<5, <<20, <<0, 2>>, <<5, <<20, <<0, 3>>, <<4>>>>>>>>>>>>>>
+    [] name = "RecTree" -> <<<<20, <<0, 1>>, <<8>>>>,
+                             <<20, <<0, 1>>, <<8, <<20, <<0, 2>>, <<8>>>>, <<20, <<0, 3>>, <<8, <<20, <<0, 4>>, <<8>>>>>>>>>>>>>>
+    [] name = "RecEnum" -> <<<<21, 1, <<0, 1>>>>,
+                             <<21, 2, <<21, 1, <<0, 1>>>>, <<21, 2, <<21, 1, <<0, 2>>>>, <<21, 1, <<0, 3>>>>>>>>>>
+
 RECURSIVE VS(_)
 \* one value per component position: the i-th choice
 TupVal(Ts, pick(_)) == <<10>> \o [i \in 1..Len(Ts) |-> pick(VS(Ts[i]))]
@@ -146,6 +155,14 @@ VS(T) ==
     [] T.k \in SetKinds ->
          LET es == VS(T.e) a == es[1] z == Last(es) m == es[Min(2, Len(es))] IN
          <<<<8>>, <<8, a>>, <<8>> \o SortSet(T.e, <<a, z>>, <<>>), <<8>> \o SortSet(T.e, <<z, m, a>>, <<>>)>>
+    [] T.k = "struct" ->
+         <<<<20>> \o [i \in 1..Len(T.fields) |-> VS(T.fields[i].t)[1]],
+           <<20>> \o [i \in 1..Len(T.fields) |-> Last(VS(T.fields[i].t))]>>
+    [] T.k = "enum" ->
+         [i \in 1..Len(T.variants) |->
+            <<21, i>> \o [j \in 1..Len(T.variants[i].fields) |-> Last(VS(T.variants[i].fields[j].t))]]
+    [] T.k = "named" -> NamedVals(T.name)
+    [] T.k = "inchunk" -> [i \in 1..Min(2, Len(VS(T.e))) |-> <<20, <<0, 7>>, VS(T.e)[i], <<0, 9>>>>]
     [] T.k \in MapKinds ->
          LET ks == VS(T.a) vs == VS(T.b) a == ks[1] z == Last(ks) m == ks[Min(2, Len(ks))] x == vs[1] y == Last(vs) IN
          <<<<8>>, <<8, <<10, a, x>>>>, <<8>> \o SortMap(T.a, <<<<10, a, y>>, <<10, z, x>>>>, <<>>),
